@@ -286,6 +286,26 @@ static void scenario(const char *name, const char *path)
         if (indep) A("end_indep", ncmpi_end_indep_data(ncid));
         A("close", ncmpi_close(ncid));
     }
+    else if (!strcmp(name, "wait_mixed_ina")) {
+        /* intra-node aggregation (hint nc_num_aggrs_per_node=1): the write phase of wait_all goes through
+         * ncmpio_intra_node_aggregation_nreqs instead of wait_getput */
+        MPI_Info_create(&info);
+        MPI_Info_set(info, "nc_num_aggrs_per_node", "1");
+        create(path, &ncid, info); def_schema(ncid, &fix, &recv, &sca, 0);
+        A("enddef", ncmpi_enddef(ncid));
+        slab(start, count);
+        A("put_vara_all", ncmpi_put_vara_int_all(ncid, fix, start, count, g_buf));
+        recslab(start, count, 0, 2);
+        A("iput_vara_rec", ncmpi_iput_vara_int(ncid, recv, start, count, g_buf, &reqs[0]));
+        slab(start, count);
+        A("iget_vara", ncmpi_iget_vara_int(ncid, fix, start, count, g_rbuf, &reqs[1]));
+        api_wait("wait_all_mixed", ncid, 2, reqs, 1);
+        recslab(start, count, 2, 1);
+        A("iput_vara_rec", ncmpi_iput_vara_int(ncid, recv, start, count, g_buf, &reqs[0]));
+        api_wait("wait_all", ncid, 1, reqs, 1);
+        A("close", ncmpi_close(ncid));
+        MPI_Info_free(&info);
+    }
     else if (!strcmp(name, "data_mode_meta")) {
         create(path, &ncid, info); def_schema(ncid, &fix, &recv, &sca, 0);
         A("enddef", ncmpi_enddef(ncid));
